@@ -922,6 +922,187 @@ class StrArrIn(Atom):
         ln, texts = v
         return " %s=%d:{%s}" % (n, len(texts), ",".join(rs(t.rstrip(" ")) for t in texts))
 
+class PtrRefOut(PtrPtrOut):
+    """T *&a +intent(out)+dimension(3) / +dimension(na) with 'int &na +intent(out)+hidden' (C++): as PtrPtrOut, through references"""
+
+    langs = ("cxx",)
+
+    def __init__(self, t, form):
+        PtrPtrOut.__init__(self, t, form)
+        self.id = "pref_out_%s_%s" % (form, t.id)
+
+    def decl(self, n):
+        if self.form == "fixed":
+            return ["%s *&%s +intent(out)+dimension(3)" % (self.t.cname, n)]
+        return ["%s *&%s +intent(out)+dimension(n%s)" % (self.t.cname, n, n), "int &n%s +intent(out)+hidden" % n]
+
+    def cparams(self, n, lang):
+        if self.form == "fixed":
+            return ["%s *&%s" % (self.t.cname, n)]
+        return ["%s *&%s" % (self.t.cname, n), "int &n%s" % n]
+
+    def body(self, n, lang):
+        arr = "vt_pp_%s_%s" % (self.id, n)
+        post = ["{ static %s %s[4]; int vt_k; for (vt_k = 0; vt_k < 4; vt_k++) %s[vt_k] = (%s)(30 + vt_k); %s = %s; }" % (self.t.cname, arr, arr, self.t.cname, n, arr)]
+        if self.form == "dyn":
+            post.append("n%s = 4;" % n)
+        return [], post
+
+
+class PtrPtrConstOut(PtrPtrOut):
+    """const T **a +intent(out)+dimension(3): the library's array is read-only for the caller"""
+
+    def __init__(self, t):
+        PtrPtrOut.__init__(self, t, "fixed")
+        self.id = "ppc_out_" + t.id
+        self.const = True
+
+    def decl(self, n):
+        return ["const %s **%s +intent(out)+dimension(3)" % (self.t.cname, n)]
+
+    def cparams(self, n, lang):
+        return ["const %s **%s" % (self.t.cname, n)]
+
+
+class PtrPtrRaw(Atom):
+    """T **a +intent(out)+deref(raw): the caller receives the address itself (type(C_PTR) in Fortran)"""
+
+    py = False
+    lua = False
+
+    def __init__(self, t):
+        Atom.__init__(self, "pp_raw_" + t.id)
+        self.t = t
+
+    def decl(self, n):
+        return ["%s **%s +intent(out)+deref(raw)" % (self.t.cname, n)]
+
+    def cparams(self, n, lang):
+        return ["%s **%s" % (self.t.cname, n)]
+
+    def body(self, n, lang):
+        arr = "vt_pp_%s_%s" % (self.id, n)
+        return [], ["{ static %s %s[4]; int vt_k; for (vt_k = 0; vt_k < 4; vt_k++) %s[vt_k] = (%s)(50 + vt_k); *%s = %s; }" % (self.t.cname, arr, arr, self.t.cname, n, arr)]
+
+    def recv(self, n, v):
+        return ""
+
+    def observe(self, v):
+        return [ra(self.t, [(50 + i) if self.t.cls == "int" else float(50 + i) for i in range(4)])]
+
+
+class ArrOutAlloc(Atom):
+    """int n, T *v +intent(out)+deref(allocatable)+dimension(n): the wrapper allocates the caller's array to n elements"""
+
+    py = False
+    lua = False
+
+    def __init__(self, t):
+        Atom.__init__(self, "arr_outalloc_%s" % t.id)
+        self.t = t
+
+    def decl(self, n):
+        return ["int n%s" % n, "%s *%s +intent(out)+deref(allocatable)+dimension(n%s)" % (self.t.cname, n, n)]
+
+    def cparams(self, n, lang):
+        return ["int n%s" % n, "%s *%s" % (self.t.cname, n)]
+
+    def body(self, n, lang):
+        log = ['vt_txt(" n%s=");' % n, "vt_i(n%s);" % n]
+        post = ["{ int vt_k; for (vt_k = 0; vt_k < n%s; vt_k++) { %s[vt_k] = (%s)(vt_k * 5 + 2); } }" % (n, n, self.t.cname)]
+        return log, post
+
+    def values(self):
+        return [0, 1, 3]
+
+    def recv(self, n, v):
+        return " n%s=%d" % (n, v)
+
+    def observe(self, v):
+        return [ra(self.t, [self.t.cls == "int" and (k * 5 + 2) or float(k * 5 + 2) for k in range(v)])]
+
+
+class VecInoutAlloc(Vec):
+    """std::vector<T> &v +intent(inout)+deref(allocatable): the caller's allocatable array is re-allocated to the
+    size the library left the vector with (no truncation to the incoming extent)"""
+
+    py = False
+
+    def __init__(self, t):
+        Vec.__init__(self, t, "inout")
+        self.id = "vec_inoutalloc_" + t.id
+
+    def decl(self, n):
+        return ["std::vector<%s> &%s +intent(inout)+deref(allocatable)" % (self.t.cname, n)]
+
+    def observe(self, v):
+        return [ra(self.t, self.lib_result(v))]
+
+
+class VoidPP(Atom):
+    """void **p +intent(in) (the library reads the int the caller's pointer points to), void **p +intent(out) and
+    void *&p +intent(out) (the library hands out the address of its own int)"""
+
+    py = False
+    lua = False
+
+    def __init__(self, form):
+        Atom.__init__(self, "voidpp_" + form)
+        self.form = form  # 'in' | 'out' | 'refout'
+        if form == "refout":
+            self.langs = ("cxx",)
+
+    def decl(self, n):
+        if self.form == "refout":
+            return ["void *&%s +intent(out)" % n]
+        return ["void **%s +intent(%s)" % (n, self.form)]
+
+    def cparams(self, n, lang):
+        return ["void *&%s" % n] if self.form == "refout" else ["void **%s" % n]
+
+    def body(self, n, lang):
+        if self.form == "in":
+            return ['vt_txt(" %s=");' % n, "vt_i(*(int *) *%s);" % n], []
+        acc = n if self.form == "refout" else "*" + n
+        return [], ["{ static int vt_cell_%s = 77; %s = &vt_cell_%s; }" % (n, acc, n)]
+
+    def values(self):
+        return [41, -7] if self.form == "in" else [None]
+
+    def recv(self, n, v):
+        return " %s=%d" % (n, v) if self.form == "in" else ""
+
+    def observe(self, v):
+        return [] if self.form == "in" else [rnd(NATIVE["int"], 77)]
+
+
+class CdescIn(Atom):
+    """T *a +intent(in)+rank(1)+cdesc: Fortran hands the C wrapper an array descriptor, the wrapper hands the library
+    the base address; the library reads the first three elements"""
+
+    py = False
+    lua = False
+    c_api = False
+
+    def __init__(self, t):
+        Atom.__init__(self, "cdesc_in_" + t.id)
+        self.t = t
+
+    def decl(self, n):
+        return ["%s *%s +intent(in)+rank(1)+cdesc" % (self.t.cname, n)]
+
+    def cparams(self, n, lang):
+        return ["%s *%s" % (self.t.cname, n)]
+
+    def body(self, n, lang):
+        return ['vt_txt(" %s=");' % n, cfmt(self.t, "%s[0]" % n), 'vt_txt(",");', cfmt(self.t, "%s[1]" % n), 'vt_txt(",");', cfmt(self.t, "%s[2]" % n)], []
+
+    def values(self):
+        return [ARR_VALS[self.t.cname][-1], [1, 2, 3] if self.t.cls == "int" else [1.0, 2.0, 3.0]]
+
+    def recv(self, n, v):
+        return " %s=%s" % (n, ",".join(rnd(self.t, x) for x in v))
+
 
 def values_of(atom):
     return atom._vals if atom._vals is not None else atom.values()
@@ -1097,10 +1278,14 @@ class StrRes(Res):
 class PtrRes(Res):
     """T * / T & result to a library-owned scalar -> Fortran pointer to scalar"""
 
-    def __init__(self, t, ref=False):
-        Res.__init__(self, "ret_%s_%s" % ("ref" if ref else "ptr", t.id))
+    def __init__(self, t, ref=False, deref=None):
+        Res.__init__(self, "ret_%s_%s%s" % ("ref" if ref else "ptr", t.id, "_" + deref if deref else ""))
         self.t = t
         self.ref = ref
+        self.deref = deref  # None | 'raw' (Fortran: type(C_PTR)) | 'scalar' (the wrapper dereferences: a plain value in C and Fortran)
+        if deref:
+            self.attrs = " +deref(%s)" % deref
+            self.py = False
         if ref:
             self.langs = ("cxx",)
 
@@ -1115,6 +1300,27 @@ class PtrRes(Res):
 
     def observe(self, extra=None):
         return [rnd(self.t, outval(self.t, 1))]
+
+
+class VoidPtrRes(Res):
+    """void *f(): the address of a library-owned int"""
+
+    py = False
+
+    def __init__(self):
+        Res.__init__(self, "ret_voidptr")
+
+    def rtype(self, lang):
+        return "void *"
+
+    def statics(self, lang):
+        return ["static int vt_static_%s = 91;" % self.id]
+
+    def ret(self, lang):
+        return ["return &vt_static_%s;" % self.id]
+
+    def observe(self, extra=None):
+        return [rnd(NATIVE["int"], 91)]
 
 
 class ArrRes(Res):
@@ -1450,6 +1656,9 @@ def core_args(level=1):
     A += [EnumVal(), ClsArg("ptr"), ClsArg("cref")]
     A += [StructArg(f) for f in ("val", "cptr", "ptr_inout", "ptr_out", "ref_inout", "cref")]
     A += [PtrPtrOut(T["int"], "fixed"), PtrPtrOut(T["int"], "dyn"), PtrPtrOut(T["double"], "dyn"), VoidPtr(), StrArrIn(), PtrPtrIn(T["int"]), PtrPtrIn(T["double"])]
+    # rows found missing by the statement-table coverage report (vt.stmtcov): generated and compiled, but never executed
+    A += [StrOut("out", ptr=True), PtrRefOut(T["int"], "fixed"), PtrRefOut(T["double"], "dyn"), PtrPtrConstOut(T["double"]), PtrPtrRaw(T["int"]),
+          ArrOutAlloc(T["int"]), ArrOutAlloc(T["double"]), VecInoutAlloc(T["int"]), VoidPP("in"), VoidPP("out"), VoidPP("refout"), CdescIn(T["int"]), CdescIn(T["double"])]
     return A
 
 
@@ -1466,4 +1675,5 @@ def core_results(level=1):
     for t in ("int", "double"):
         R += [PtrRes(T[t]), PtrRes(T[t], ref=True), ArrRes(T[t]), ArrRes(T[t], "allocatable"), VecRes(T[t]), ArrRes2(T[t]), ArrRes2(T[t], "allocatable")]
     R += [EnumRes(), StructRes("val"), StructRes("ptr")]
+    R += [PtrRes(T["int"], deref="raw"), PtrRes(T["int"], deref="scalar"), PtrRes(T["double"], deref="scalar"), VoidPtrRes()]
     return R
